@@ -152,7 +152,7 @@ def install(lw):
 
 
 def run(ctx):
-    lw = setup(ctx)
+    lw = setup(ctx, warm=False)
     install(lw)
     rng = ctx.rng
     State = lw.State
